@@ -157,6 +157,58 @@ pub fn slices_all_subsets<const N: usize>(acc: &mut Acc, c: &GraphCase, g: &Sodg
     }
 }
 
+/// C19: for every start vertex and every subset of the edges as the accepting predicate (up to 6
+/// edges; above: a few subsets), the slice is the same under every drain order of the work-list.
+pub fn slices_order_independent<const N: usize>(acc: &mut Acc, g: &Sodg<N>, m: &Model, fs: &mut Vec<Finding>) {
+    let edges: Vec<(usize, u8)> = m.present.iter().flat_map(|(v, mv)| mv.edges.iter().map(|(l, _)| (*v, *l))).collect();
+    let e = edges.len();
+    let subsets: Vec<u64> = if e <= 6 {
+        (0..(1u64 << e)).collect()
+    } else {
+        let full = if e >= 64 { u64::MAX } else { (1u64 << e) - 1 };
+        vec![full, 0x5555_5555_5555_5555 & full, 0xAAAA_AAAA_AAAA_AAAA & full, full & !1, full & !2]
+    };
+    // small graphs: every order; wide ones: the first 24 orders from two start vertices
+    let small = m.present.len() <= 4;
+    let limit = if small { 5000 } else { 24 };
+    for v in m.keys().into_iter().take(if small { 4 } else { 2 }) {
+        if m.reachable_present(v).is_none_or(|r| r.len() > 14) {
+            continue;
+        }
+        for subset in &subsets {
+            let accepted = |f: usize, a: u8| edges.iter().position(|e| *e == (f, a)).is_some_and(|i| i < 64 && subset >> i & 1 == 1);
+            let mut first: Option<String> = None;
+            let mut differs: Option<(String, String)> = None;
+            let runs = probes::for_each_drain_order(limit, || {
+                acc.evaluations += 1;
+                let r = guarded(|| g.slice_some(v, |f, _t, a| (0..=255u8).find(|i| lab(*i) == a).is_some_and(|li| accepted(f, li))).ok().map(|s| probes::observe_all(&s, false)));
+                let obs = match r {
+                    Ok(Some(o)) => o,
+                    Ok(None) => "Err".to_string(),
+                    Err(e) => format!("panic: {e}"),
+                };
+                match &first {
+                    None => {
+                        first = Some(obs);
+                        true
+                    }
+                    Some(f) if *f == obs => true,
+                    Some(f) => {
+                        differs = Some((f.clone(), obs));
+                        false
+                    }
+                }
+            });
+            acc.bump("slice_drain_orders_compared", runs as u64);
+            if let Some((a, b)) = differs {
+                let d = a.lines().zip(b.lines()).find(|(x, y)| x != y).map(|(x, y)| format!("`{x}` vs `{y}`")).unwrap_or_else(|| "different lengths".to_string());
+                fs.push(Finding::new("slice-depends-on-drain-order", &["C19"], format!("slice_some at ν{v} accepting the edge subset {subset:#b} of {edges:?} gives different slices depending on the order in which its work-list (a hash set) is drained: {d}")));
+                return;
+            }
+        }
+    }
+}
+
 pub fn check_case(acc: &mut Acc, prop: &str, c: &GraphCase, cfg: &HxCfg, all_orders: bool) {
     crate::inflight::begin_case(|| json!({"engine": "graphgen", "property": prop, "case": c, "kind": "crash-or-hang", "tags": [prop]}));
     crate::with_n!(c.n, N, {
@@ -184,7 +236,12 @@ pub fn check_case(acc: &mut Acc, prop: &str, c: &GraphCase, cfg: &HxCfg, all_ord
                 if fs.is_empty() && other != base {
                     fs.push(Finding::new("configuration-changes-answer", &["C19"], format!("Sodg<{}> with capacity {} and Sodg<16> with capacity 256 answer differently", c.n, c.cap)));
                 }
-                let _ = (&g, &m);
+                // slice_some() with a predicate: the order in which its work-list (a hash set) is drained
+                // is the one place where the hash seed reaches control flow; every order is enumerated
+                // through the hook, and all of them must give the same slice (vertices, edges, data, grouping)
+                if fs.is_empty() {
+                    slices_order_independent(acc, &g, &m, &mut fs);
+                }
                 report(acc, prop, c, fs);
             }
             "C13" => slices_all_subsets(acc, c, &g, &m, all_orders),
